@@ -41,10 +41,22 @@ theorem effStep_commOn {K V : Type} [DecidableEq K] (l : List Eff) (sem : Sem K 
     (CommOn.prod (CommOn.of_rightComm (setsStep_rightComm l sem) es)
       (CommOn.of_rightComm (sharedStep_rightComm l sem) es))
 
+/-- Without complaints a guarded body is its effects. -/
+theorem guarded_quiet {K V : Type} [DecidableEq K] (l : List Eff) (sem : Sem K V) (sem2 : Sem2 K)
+    (es : List (Entry K)) (hq : ∀ e, e ∈ es → sem2.complains e = false) (c : Cells K V) :
+    es.foldl (guardedStep l sem sem2) (c, none) = (es.foldl (effStep l sem) c, none) := by
+  induction es generalizing c with
+  | nil => rfl
+  | cons e es ih =>
+    have he := hq e (by simp)
+    simp only [List.foldl_cons, guardedStep, he]
+    exact ih (fun x hx => hq x (List.mem_cons_of_mem _ hx)) _
+
 /-- **A described body computes the same program state for every visiting order.** -/
 theorem runBody_perm {K V C : Type} [DecidableEq K] (site : String) (b : Body) (sem : Sem K V)
     (sem2 : Sem2 K) (p : PState K V C) {es₁ es₂ : List (Entry K)} (hk : DistinctKeys es₁)
-    (hs : SeparateEntries es₁) (ha : PayloadsAgree b sem2 es₁) (perm : es₁.Perm es₂) :
+    (hs : SeparateEntries es₁) (ha : PayloadsAgree b sem2 es₁) (hq : NoComplaint b sem2 es₁)
+    (perm : es₁.Perm es₂) :
     runBody site b sem sem2 p es₁ = runBody site b sem sem2 p es₂ := by
   cases b with
   | effects l =>
@@ -68,6 +80,12 @@ theorem runBody_perm {K V C : Type} [DecidableEq K] (site : String) (b : Body) (
       | cons e₂ r₂ =>
         have h := ha t rfl e₁ (by simp) e₂ (perm.mem_iff.mpr (by simp))
         simp only [runBody, h]
+  | guarded l =>
+    have q₁ := hq l rfl
+    have q₂ : ∀ e, e ∈ es₂ → sem2.complains e = false := fun e he => q₁ e (perm.mem_iff.mpr he)
+    simp only [runBody]
+    rw [guarded_quiet l sem sem2 es₁ q₁, guarded_quiet l sem sem2 es₂ q₂,
+      foldl_perm _ perm (effStep_commOn l sem hk hs)]
   | «opaque» w => rfl
 
 end NA.C16.D
